@@ -223,6 +223,31 @@ def oracle_rejects(ck, rng):
     probes.append(("negative int subset", lambda: make([1, 2], [0, 1]).subset(-1), (IndexError,)))
     probes.append(("out-of-range int subset", lambda: make([1, 2], [0, 1])[2], (IndexError,)))
     probes.append(("pos not (N,3)", lambda: Molecules(np.zeros((3, 2))), (ValueError,)))
+    # a new feature named like a coordinate column: rejected at once, or at the latest by the next table operation -- and never
+    # at the price of moved / re-oriented molecules
+    for cname in ("z", "y", "x", "zvec", "yvec", "xvec"):
+        for form in ("alias", "keyword"):
+            ck.oracle_count("coordinate_name_collision", 1, 1)
+            m0 = make([1, 2, 3], [0, 1, 0])
+            p_before, q_before = m0.pos.copy(), m0.quaternion().copy()
+            try:
+                m1 = m0.with_features(pl.col("tag").cast(pl.Float64).alias(cname)) if form == "alias" else m0.with_features([], **{cname: pl.col("tag") * 2.0})
+            except ValueError:
+                continue
+            except Exception as e:  # noqa
+                ck.violation(what=f"with_features(... as {cname!r}) raised {type(e).__name__}: {e}", inp={"column": cname, "form": form},
+                             key={"site": "coordinate-collision", "symptom": "raised"}, oracle="coordinate_name_collision")
+                continue
+            moved = not (np.allclose(m1.pos, p_before, atol=1e-6) and np.allclose(np.abs(np.sum(m1.quaternion() * q_before, axis=1)), 1.0, atol=1e-6))
+            later = False
+            try:
+                m1.head(2)
+            except ValueError:
+                later = True
+            if moved or not later:
+                ck.violation(what=f"with_features(... as {cname!r}, {form}): " + ("positions/orientations were overwritten by the feature" if moved else
+                                  "accepted, and the following table operation does not reject it either"), inp={"column": cname, "form": form},
+                             key={"site": "coordinate-collision", "symptom": "moved" if moved else "accepted"}, oracle="coordinate_name_collision")
     for name, fn, exc in probes:
         ck.oracle_count("rejects_inconsistent_input", 1, 1)
         try:
